@@ -119,17 +119,44 @@ pub fn process_cpu_ns() -> u64 {
     ts.tv_sec as u64 * 1_000_000_000 + ts.tv_nsec as u64
 }
 
+/// set while the harness itself waits for something outside this process (a forked child): the
+/// no-progress detector must not read that as a blocked library call
+pub static WD_EXTERNAL_WAIT: AtomicU64 = AtomicU64::new(0);
+
+/// a case is "blocked" when the whole process has used less than 20 ms of CPU during 30 s of wall time while
+/// a case is open: nothing is running, nothing will (a lock never released, a wait never satisfied). Decided
+/// on CPU time, so machine load cannot produce it: a runnable thread on a loaded machine still accumulates CPU.
+const BLOCKED_WINDOW: std::time::Duration = std::time::Duration::from_secs(30);
+const BLOCKED_CPU_NS: u64 = 20_000_000;
+
 fn start_watchdog() {
-    std::thread::spawn(|| loop {
-        std::thread::sleep(std::time::Duration::from_millis(50));
-        let dl = WD_DEADLINE_NS.load(Ordering::Relaxed);
-        if dl != u64::MAX && process_cpu_ns() > dl {
+    std::thread::spawn(|| {
+        let mut win_case = u64::MAX;
+        let mut win_start = std::time::Instant::now();
+        let mut win_cpu = process_cpu_ns();
+        loop {
+            std::thread::sleep(std::time::Duration::from_millis(50));
+            let dl = WD_DEADLINE_NS.load(Ordering::Relaxed);
             let k = WD_CASE.load(Ordering::Relaxed);
-            let line = format!("X {} cpu\n", k);
-            let fd = WD_FD.load(Ordering::Relaxed);
-            unsafe {
-                libc::write(fd, line.as_ptr() as *const _, line.len());
-                libc::_exit(97);
+            let cpu = process_cpu_ns();
+            let mut verdict: Option<(&str, i32)> = None;
+            if dl != u64::MAX && cpu > dl {
+                verdict = Some(("cpu", 97));
+            }
+            if dl == u64::MAX || k != win_case || WD_EXTERNAL_WAIT.load(Ordering::Relaxed) != 0 || cpu - win_cpu >= BLOCKED_CPU_NS {
+                win_case = k;
+                win_start = std::time::Instant::now();
+                win_cpu = cpu;
+            } else if win_start.elapsed() >= BLOCKED_WINDOW {
+                verdict = Some(("blocked", 96));
+            }
+            if let Some((why, code)) = verdict {
+                let line = format!("X {} {}\n", k, why);
+                let fd = WD_FD.load(Ordering::Relaxed);
+                unsafe {
+                    libc::write(fd, line.as_ptr() as *const _, line.len());
+                    libc::_exit(code);
+                }
             }
         }
     });
